@@ -1250,10 +1250,10 @@ func (s *Scanner) switchToComment() {
 
 func stateAnyCommentStart(s *Scanner, c byte) state {
 	if c != '#' {
-		// any symbol inline user comment
+		// any symbol inline user comment (a line end means the comment is empty)
 		s.annotation = annotationNone
 		s.step = stateInlineComment
-		return scanContinue
+		return s.step(s, c)
 	} else if s.index < s.dataSize && s.data.Byte(s.index) == '#' { // third #
 		s.annotation = annotationNone
 		s.step = stateMultiLineComment
